@@ -632,7 +632,7 @@ Proof. apply append_fresh_inv. apply build_fresh. Qed.
 (* ---- Loop.copy_tree_structure allocates a fresh tree ---------------------------------------------------------------------------------------- *)
 Lemma copy_tree_S f x par :
   copy_tree (S f) x par =
-  (n <- getn x ;; ids <- mmap (fun c => nc <- getn c ;; copy_tree f c (parent nc)) (children n) ;;
+  (n <- getn x ;; ids <- mmap (fun c => copy_tree f c None) (children n) ;;
    new_loop par ids (rdf n) (wform n) (meas n)).
 Proof. reflexivity. Qed.
 
@@ -649,7 +649,7 @@ Proof.
   - cbn in H. inversion H; subst. left; reflexivity.
   - rewrite copy_tree_S in H. unfold bind at 1 in H. unfold getn at 1 in H.
     destruct (get h x) as [n|]; [|inversion H; subst; right; reflexivity].
-    assert (MM : forall l h0 h1 r1, mmap (fun c => nc <- getn c ;; copy_tree f c (parent nc)) l h0 = (h1, r1) ->
+    assert (MM : forall l h0 h1 r1, mmap (fun c => copy_tree f c None) l h0 = (h1, r1) ->
                  match r1 with
                  | R ids => (length h0 <= length h1)%nat /\ (forall y, (y < length h0)%nat -> get h1 y = get h0 y) /\
                             Subs h1 (length h0) (length h1) ids
@@ -657,9 +657,8 @@ Proof.
                  end).
     { induction l as [|c l IHl]; intros h0 h1 r1 HM.
       - cbn in HM. inversion HM; subst. repeat split; auto. constructor.
-      - cbn in HM. unfold bind at 1 in HM. unfold bind at 1 in HM. unfold getn at 1 in HM.
-        destruct (get h0 c) as [nc|]; [|inversion HM; subst; right; reflexivity].
-        destruct (copy_tree f c (parent nc) h0) as (ha, ra) eqn:CT.
+      - cbn in HM. unfold bind at 1 in HM.
+        destruct (copy_tree f c None h0) as (ha, ra) eqn:CT.
         pose proof (IH _ _ _ _ _ CT) as Pa.
         destruct ra as [ca|e]; [|inversion HM; subst; exact Pa].
         destruct Pa as (La & Lca & Oa & Sa).
